@@ -3,7 +3,7 @@ use crate::rng::Rng;
 use crate::universe::*;
 
 #[derive(Clone, Copy, PartialEq, Eq, Debug)]
-pub enum Kind { General, Soft, ConflictFree, Hints, Tight, Lazy, CycleMerge, SoftBackjump, LazyUnsat, FalseThenTrue }
+pub enum Kind { General, Soft, ConflictFree, Hints, Tight, Lazy, CycleMerge, SoftBackjump, LazyUnsat, FalseThenTrue, SoftPoison }
 
 pub struct Generated { pub u: Universe, pub p: Problem }
 
@@ -227,8 +227,44 @@ pub fn generate_false_then_true(rng: &mut Rng, hinted: bool) -> Generated {
     Generated { u, p }
 }
 
+/// Soft requirements and the documented exemption: the first soft requirement names an excluded or locked-out
+/// solvable of a package nobody has requested yet, a later one requests that package through a version set, the
+/// last one is trivially installable (open known finding C14 soft-poisoned; also exercises rejected-then-retried
+/// soft runs whose first encode fails)
+pub fn generate_soft_poison(rng: &mut Rng) -> Generated {
+    let mut u = Universe::default();
+    // names: 0 = r (hard), 1 = d (the package with an exclusion / lock), 2 = e (requires d), 3 = f (free), 4 = x
+    let sizes = [rng.range(1, 2) as usize, rng.range(2, 3) as usize, 1usize, rng.range(1, 2) as usize, rng.range(1, 2) as usize];
+    let mut next_s = 0u32;
+    let mut cands: Vec<Vec<u32>> = Vec::new();
+    for sz in &sizes { cands.push((0..*sz).map(|_| { let s = next_s; next_s += 1; s }).collect()); }
+    let mut next_v = 0u32;
+    let mut any_vs = Vec::new();
+    for (n, cs) in cands.iter().enumerate() { u.vsets.insert(next_v, VSet { name: n as u32, matching: cs.clone() }); any_vs.push(next_v); next_v += 1; }
+    for (n, cs) in cands.iter().enumerate() {
+        for (i, &c) in cs.iter().enumerate() {
+            let reqs: Vec<Req> = match n { 2 => vec![Req::Single(any_vs[1])], 4 if rng.chance(1, 2) => vec![Req::Single(any_vs[3])], _ => vec![] };
+            let cons: Vec<u32> = if n == 4 && rng.chance(1, 3) { vec![any_vs[0]] } else { vec![] };
+            u.solvs.insert(c, Solv { name: n as u32, rank: i as u32, deps: Deps::Known { reqs, cons } });
+        }
+        let mut p = Pkg { cands: cs.clone(), ..Default::default() };
+        if n == 1 { if rng.chance(1, 2) { p.excluded.push((cs[0], 0)); } else { p.locked = Some(cs[1]); } }
+        if rng.chance(1, 4) { p.hint = Hint::All; }
+        u.pkgs.insert(n as u32, p);
+    }
+    let mut p = Problem::default();
+    p.reqs.push(Req::Single(any_vs[0]));
+    p.soft.push(cands[1][0]);                  // excluded / locked out, package not requested yet: accepted under the exemption
+    if rng.chance(1, 3) { p.soft.push(*rng.pick(&cands[4])); }
+    p.soft.push(cands[2][0]);                  // requests package d through a version set
+    if rng.chance(1, 2) { p.soft.push(*rng.pick(&cands[4])); }
+    p.soft.push(cands[3][0]);                  // nothing stands in its way
+    Generated { u, p }
+}
+
 pub fn generate_opts(rng: &mut Rng, kind: Kind, force_sparse: bool) -> Generated {
     if kind == Kind::CycleMerge { return generate_cycle_merge(rng); }
+    if kind == Kind::SoftPoison || (kind == Kind::Soft && rng.chance(1, 12)) { return generate_soft_poison(rng); }
     if kind == Kind::FalseThenTrue { let h = rng.chance(2, 3); return generate_false_then_true(rng, h); }
     if kind == Kind::Hints && rng.chance(1, 8) { return generate_false_then_true(rng, true); }
     if kind == Kind::LazyUnsat || (kind == Kind::Lazy && rng.chance(1, 5)) { return generate_lazy_unsat(rng); }
